@@ -60,3 +60,35 @@ def G(c):
 
 
 assert mul(P256, P256["n"], G(P256)) is None and on_curve(P256, mul(P256, 12345, G(P256)))
+
+
+def sqrt_mod(a, p):
+    """Tonelli-Shanks (independent of the library's square_root_mod_prime); None when a is not a square"""
+    a %= p
+    if a == 0:
+        return 0
+    if pow(a, (p - 1) // 2, p) != 1:
+        return None
+    if p % 4 == 3:
+        return pow(a, (p + 1) // 4, p)
+    q, s = p - 1, 0
+    while q % 2 == 0:
+        q //= 2
+        s += 1
+    z = 2
+    while pow(z, (p - 1) // 2, p) != p - 1:
+        z += 1
+    m, c2, t, r = s, pow(z, q, p), pow(a, q, p), pow(a, (q + 1) // 2, p)
+    while t != 1:
+        i, t2 = 0, t
+        while t2 != 1:
+            t2 = t2 * t2 % p
+            i += 1
+        b = pow(c2, 1 << (m - i - 1), p)
+        m, c2, t, r = i, b * b % p, t * b * b % p, r * b % p
+    return r
+
+
+def in_subgroup(c, P):
+    """n * P == infinity (what Public_key checks when the cofactor is not 1)"""
+    return mul(c, c["n"], P) is None
